@@ -1321,7 +1321,9 @@ class FnCompiler:
             bt = self.block(body, lenv, call)
             used, self.used_generic = self.used_generic, saved or self.used_generic
             self.loopctx.pop()
-            gb, ga = self.generic_binders(used)
+            if used:
+                raise self.err("the generic view is used inside a loop")
+            gb, ga = self.generic_binders(False)
             outs = [env[m]["coq"] for m in mods] + (["acc"] if is_mut else [])
             rty = tup_type([coq_type(lenv[m]["ty"]) for m in mods] + (["(list Z)"] if is_mut else []))
             self.loops.append(
@@ -1350,7 +1352,9 @@ class FnCompiler:
             bt = self.block(body, lenv, call)
             used, self.used_generic = self.used_generic, saved or self.used_generic
             self.loopctx.pop()
-            gb, ga = self.generic_binders(used)
+            if used:
+                raise self.err("the generic view is used inside a loop")
+            gb, ga = self.generic_binders(False)
             rty = tup_type([coq_type(lenv[m]["ty"]) for m in mods])
             t = self.tmp()
             self.loops.append(
